@@ -51,10 +51,22 @@ static inline void touch_page(uint64_t o) {
 
 static void init_memory() {
 	if (arena) return;
+	// Preferred placement: a fixed address such that the simulated policy's memory (which starts 16 MiB into the arena)
+	// begins 8 MiB below the 4 GiB line and crosses it — code that truncates an address to 32 bits then misbehaves.
+	// The same address in every process keeps runs comparable; if it is taken, fall back to any 1 GiB-aligned address.
+#ifndef MAP_FIXED_NOREPLACE
+#define MAP_FIXED_NOREPLACE 0x100000
+#endif
 	size_t G = (size_t)1 << 30;
-	char *raw = (char *)mmap(nullptr, arena_size + G, PROT_READ | PROT_WRITE, MAP_PRIVATE | MAP_ANONYMOUS | MAP_NORESERVE, -1, 0);
-	if (raw == MAP_FAILED) { perror("mmap arena"); exit(3); }
-	arena = (char *)(((uintptr_t)raw + G - 1) & ~(G - 1));
+	void *want = (void *)(uintptr_t)(0x100000000ull - ((uint64_t)24 << 20));
+	char *fixed = (char *)mmap(want, arena_size, PROT_READ | PROT_WRITE, MAP_PRIVATE | MAP_ANONYMOUS | MAP_NORESERVE | MAP_FIXED_NOREPLACE, -1, 0);
+	if (fixed == (char *)want) arena = fixed;
+	else {
+		if (fixed != (char *)MAP_FAILED) munmap(fixed, arena_size);
+		char *raw = (char *)mmap(nullptr, arena_size + G, PROT_READ | PROT_WRITE, MAP_PRIVATE | MAP_ANONYMOUS | MAP_NORESERVE, -1, 0);
+		if (raw == MAP_FAILED) { perror("mmap arena"); exit(3); }
+		arena = (char *)(((uintptr_t)raw + G - 1) & ~(G - 1));
+	}
 	shadow = (Cell *)mmap(nullptr, arena_size * sizeof(Cell), PROT_READ | PROT_WRITE, MAP_PRIVATE | MAP_ANONYMOUS | MAP_NORESERVE, -1, 0);
 	if (shadow == MAP_FAILED) { perror("mmap shadow"); exit(3); }
 	page_touched = (uint8_t *)calloc(arena_size >> 12, 1);
